@@ -23,8 +23,8 @@ RULE = ('Valid documents of every selectable map, envelope skeletons and raw str
         'structural catalogue (delete/duplicate/swap/move/retag segment, truncate at segment or character, orphan trailers, '
         'nested headers, non-numeric/missing counts, extra elements/components, empty and blank-only segments, doubled '
         'terminators, over-long segments, byte flips, delimiters dropped into data, damaged ISA) plus the 24 envelope faults of '
-        'C04, then run through one of three entry points under a chunk plan, an EOF offset (sampled; for documents <= 4 KiB every 25th run of the thorough tier and every 400th of the '
-        'quick tier sweeps *every* offset), one of the 8 sink subsets and a charset. distinct_nontrivial = distinct '
+        'C04, then run through one of three entry points under a chunk plan, an EOF offset (sampled; for documents <= 4 KiB every 50th run of the thorough tier (<= 1.2 KiB, every 500th, in the '
+        'quick tier) sweeps *every* offset), one of the 8 sink subsets and a charset. distinct_nontrivial = distinct '
         '(entry point, sink subset, sorted fault kinds, outcome class) keys.')
 ASSUMPTIONS = [
     'documented outcomes: True; False; X12Error iff the first 106 characters are not a supported ISA header or a later ISA '
@@ -49,7 +49,7 @@ ENTRY = ['validate', 'validate', 'validate', 'reader', 'context', 'context_loop'
 def tier_config(tier):
     if tier == 'thorough':
         return {'runs': 60000, 'wall': 820, 'det_probe': 4}
-    return {'runs': 2200, 'wall': 110, 'det_probe': 3}
+    return {'runs': 5000, 'wall': 150, 'det_probe': 3}
 
 
 # ------------------------------------------------------------------ mutation of flat segment lists
@@ -288,7 +288,7 @@ def generate(rng, tier, run, seed=0):
         loop_id = rng.choice(loops + ['ISA_LOOP', 'GS_LOOP', 'ST_LOOP', 'NOPE'])
     case = {'text': text, 'faults': fired, 'cfg': cfg, 'eof': eof, 'entry_point': entry_point, 'loop_id': loop_id,
             'charset': rng.choice(['E', 'B']), 'base': base_kind, 'map': entry['file']}
-    if len(text) <= 4096 and run % (25 if tier == 'thorough' else 400) == 7:
+    if (len(text) <= 4096 and run % 50 == 7) if tier == 'thorough' else (len(text) <= 1200 and run % 500 == 7):
         # crash point enumeration: end of input at *every* character offset of a small document
         case['eof_sweep'] = True
         case['eof'] = None
